@@ -1,6 +1,37 @@
-import YncaVerif.Model.Conn
-/-! # C20 — (statements over the L4 model; under construction) -/
+import YncaVerif.Lemmas.C20
+/-! # C20 — the communication log is a faithful, bounded record of the wire -/
 namespace Ynca.C20
 open Ynca.L4
-theorem C20_model_initial_state : run ⟨100000, 30000000, 2000000, 1000000, 0⟩ {} [] = some {} := rfl
+
+/-- **ring = suffix**: after any sequence of `add`s a ring of capacity `n` (`collections.deque(maxlen=n)`)
+    holds the last `min n k` items in order -/
+theorem C20_ring_is_suffix {α : Type} (n : Nat) (xs : List α) :
+    xs.foldl (ringAdd n) [] = xs.drop (xs.length - n) :=
+  ring_is_suffix n xs
+
+/-- **bounded**, and empty for `n = 0` -/
+theorem C20_bounded {α : Type} (n : Nat) (xs : List α) : (xs.foldl (ringAdd n) []).length ≤ n := by
+  rw [ring_is_suffix]; simp; omega
+
+theorem C20_zero_is_empty {α : Type} (xs : List α) : xs.foldl (ringAdd 0) [] = [] := by
+  rw [ring_is_suffix]; simp
+
+/-- **sends are faithful**: the `Send` entries of the (unbounded) log are exactly the lines written, in
+    transmission order, plus at most one entry that is logged but not yet (or, on a write error, never) written -/
+theorem C20_sends_faithful (P : Params) (s : St) (h : Reachable P s) :
+    ∃ extra, logSends s = wireTexts s ++ extra ∧ extra.length ≤ 1 :=
+  sends_faithful P s h
+
+/-- **receives are faithful**: the `Received` entries are exactly the complete lines taken from the stream, in
+    arrival order (the newest line may not be logged yet) -/
+theorem C20_receives_faithful (P : Params) (s : St) (h : Reachable P s) :
+    ∃ extra, s.rxLines = logRecvs s ++ extra ∧ extra.length ≤ 1 :=
+  receives_faithful P s h
+
+/-- keep-alive probes are logged like every other transmission: a `Send` entry is appended for every item the
+    sender is about to write, before the write -/
+theorem C20_logged_before_write (P : Params) (s s' : St) (t : String) (hr : Reachable P s)
+    (h : step P s .s = some (s', some (.write t))) : t ∈ logSends s :=
+  write_was_logged P s s' t hr h
+
 end Ynca.C20
